@@ -310,12 +310,20 @@ pub fn child(seed: u64) -> i32 {
             return fail("sampled-value-not-recorded", format!("histogram values received that were never recorded: {:?}", hist.keys().filter(|t| !tags.contains(t)).collect::<Vec<_>>()));
         }
         // telemetry is documented to be sent when enabled: wait for some of it as well
-        let hist_complete = hist_complete && (!telemetry || telemetry_messages > 0);
+        // (not under the 96-byte payload limit: the telemetry lines with their client tags do not fit it and are dropped)
+        let hist_complete = hist_complete && (!telemetry || seed / 48 % 2 == 1 || telemetry_messages > 0);
         let complete = (0..2).all(|i| sums.get(&name(&format!("ci{}", i))).copied().unwrap_or(0) == total_inc[i]) && hist_complete && gauge_last.map(|g| g == last_gauge).unwrap_or(false);
         if complete {
             println!("CHILD-OK {} messages over {}", msgs.len(), describe(seed));
             let _ = std::fs::remove_dir_all(&dir);
             return 0;
+        }
+        if Instant::now() > deadline && std::env::var("VERIF_C10_DEBUG").is_ok() {
+            let mut names: std::collections::BTreeMap<String, usize> = Default::default();
+            for m in &msgs {
+                *names.entry(format!("{}|{}", m.name, m.mtype)).or_insert(0) += 1;
+            }
+            eprintln!("C10 debug: messages by name {:?}", names);
         }
         if Instant::now() > deadline {
             let _ = std::fs::remove_dir_all(&dir);
